@@ -228,6 +228,8 @@ func gen(seed uint64, tier string) {
 	for i := 0; i < n/10; i++ {
 		fmt.Fprintf(out, "rdrt %s %s %s\n", []string{"one", "half", "dataerr", "buf"}[i%4], []string{"X", "N"}[r.Intn(2)], vproto.GeomToks(genGeom(r, 3)))
 	}
+	// streaming: scripted readers, several values on one stream, writers that are not bytes.Buffer (stream.go)
+	genStream(out, r, n)
 	// histories: many rejected decodes, then a valid round trip in the same process (state that leaks on
 	// error paths must not poison later calls); one line = one replayable history
 	for _, bad := range []string{"x", "x02", "x0101", "x01ff000000", "x010700000001000000", "x0107000000020000000101000000000000000000f03f000000000000004001"} {
@@ -342,6 +344,16 @@ func impl() {
 				}
 			case "alias":
 				res = implAlias(p)
+			case "rdscript":
+				res = implRdscript(p)
+			case "seqwr":
+				res = implSeqwr(p)
+			case "wrfail":
+				res = implWrfail(p)
+			case "encbo":
+				res = implEncbo(p)
+			case "decin":
+				res = implDecin(p)
 			case "rdrt":
 				kind := p.Next()
 				o := bo(p.Next())
